@@ -160,6 +160,8 @@ def run(ctx):
     from ..drivers import acct_dec
     dtr = acct_dec.random_histories(ctx.pick(60, 1200), ctx.seed, first_id=tid + 1)
     dtr += acct_dec.split_histories(ctx.pick(60, 800), ctx.seed, first_id=tid + 1 + len(dtr))   # exact-boundary scenarios
+    # many small buys at fee 0.0004 / 0.00075 / 0.001, then a sell of exactly position.qty; position.qty == base bit for bit
+    dtr += acct_dec.accumulate_histories(ctx.pick(45, 600), ctx.seed, first_id=tid + 1 + len(dtr))
     dverd, dres = acct_dec.validate(dtr, ctx.scratch)
     dbad = acct_dec.report(ctx, PID, dtr, dverd)
     ctx.log("T decimal: %d histories, %d events, %d rejected" % (len(dtr), sum(len(t["ev"]) for t in dtr), dbad))
@@ -174,7 +176,7 @@ def run(ctx):
     for t in dtr:
         w = acct.word(t)
         if ("X" in w or "F" in w) and ("C" in w or "!" in w):
-            ctx.nontrivial.add(json.dumps(["dec", t["hdr"]["fee_bp"], t["seed"]]))
+            ctx.nontrivial.add(json.dumps(["dec", t["hdr"]["fee_hbp"], t["seed"]]))
     if ttr:
         samples.append({"kind": "T: random history, exact lattice (first 10 operations)", "hdr": ttr[0]["hdr"],
                         "ops": acct.ops_of(ttr[0])[:10]})
